@@ -133,6 +133,16 @@ func nonFinite(o geojson.Object) bool {
 	return false
 }
 
+// specNonFinite reports a generated object whose GeoJSON text carries a null or
+// +-1e999 coordinate (x, y or z; a non-finite z does not show in the box).
+func specNonFinite(spec objSpec) bool {
+	if len(spec.Args) != 2 || spec.Args[0] != "OBJECT" {
+		return false
+	}
+	js := spec.Args[1]
+	return strings.Contains(js, "1e999") || strings.Contains(js, "[null") || strings.Contains(js, ",null")
+}
+
 // nestedCircle reports a circle below the top level of o.
 func nestedCircle(o geojson.Object) bool {
 	if o == nil || isCircleObj(o) {
@@ -351,7 +361,7 @@ func (b *srvBackend) set(id string, spec objSpec, obj geojson.Object) error {
 	if err != nil {
 		return err
 	}
-	if v.IsErr() && nonFinite(obj) {
+	if v.IsErr() && (nonFinite(obj) || specNonFinite(spec)) {
 		return refusedErr{v.Str}
 	}
 	if v.Kind != '+' {
@@ -1080,10 +1090,11 @@ func drawN(rt *rapid.T, s sizes) int {
 // objects whose polygon box is NaN are replaced by their centre point.
 func (m *machine) drawObject(t *rapid.T, p pool) objSpec {
 	o := p.object(t)
-	if nonFiniteRefused || ev.KnownActive(findingNonFinite) {
-		if g, err := buildObject(o); err == nil && nonFinite(g) {
-			if nonFiniteRefused {
-				m.c.Label("nonfinite-object-refused-by-server")
+	// (at the server level the refused SET is sent anyway: it must change nothing)
+	if (nonFiniteRefused && m.hist.Level == "collection") || ev.KnownActive(findingNonFinite) {
+		if g, err := buildObject(o); err == nil && (nonFinite(g) || specNonFinite(o)) {
+			if nonFiniteRefused && !ev.KnownActive(findingNonFinite) {
+				m.c.Label("nonfinite-object-not-admitted")
 			} else {
 				m.c.Excluded(findingNonFinite)
 			}
